@@ -65,7 +65,7 @@ Theorem C02_field_position : forall v t, tables_of v = Some t ->
 Proof.
   intros v t Ht e He sn r Hin Ha Hm.
   destruct (shipped_table_facts v t Ht) as [Hst [Hvar _]].
-  destruct (shipped_segment_ok v t sn r Ht Hin Ha Hm) as [Hl [srows [-> [H3 [Hup [Hmsh [Hz [Hc [Hrows Hnof]]]]]]]]].
+  destruct (shipped_segment_ok v t sn r Ht Hin Ha Hm) as [Hl [srows [-> [H3 [Hup [Hmsh [Hz [Hc [Hrows [Hnof _]]]]]]]]]].
   exists srows. split; [reflexivity|]. intros i row inf b x Hi Hn Hr Hdt Hb Hx Hd Hlf.
   exact (field_position t e (leaf_enc v TOLERANT e) He Hst Hvar sn srows i row inf b x
            H3 Hup Hmsh Hz Hl Hc Hrows Hi Hn Hr Hdt Hb Hx Hd Hlf).
@@ -107,7 +107,7 @@ Theorem C02_field_position_varies : forall v t, tables_of v = Some t ->
 Proof.
   intros v t Ht e He sn r Hin Ha Hm.
   destruct (shipped_table_facts v t Ht) as [Hst [Hvar _]].
-  destruct (shipped_segment_ok v t sn r Ht Hin Ha Hm) as [Hl [srows [-> [H3 [Hup [Hmsh [Hz [Hc [Hrows Hnof]]]]]]]]].
+  destruct (shipped_segment_ok v t sn r Ht Hin Ha Hm) as [Hl [srows [-> [H3 [Hup [Hmsh [Hz [Hc [Hrows [Hnof _]]]]]]]]]].
   exists srows. split; [reflexivity|]. intros i row inf x Hi Hn Hr Hdt Hx Hd Hlf.
   exact (field_position_varies t e (leaf_enc v TOLERANT e) He Hst Hvar sn srows i row inf x
            H3 Hup Hmsh Hz Hl Hc Hrows Hi Hn Hr Hdt Hx Hd Hlf).
@@ -117,7 +117,7 @@ Print Assumptions C02_field_position_varies.
 (* ... and every field position whose row has NO datatype (the reserved positions of v2.5.1:
    MSA-5, OBX-20, OBX-21, OBX-22): parsed like varies, the field's datatype stays None.  Together
    with C02_field_position (base-typed leaves), C02_field_position_varies and the struct-typed
-   positions below, every kind of field row that Model/Wf.v admits is covered. *)
+   positions below, every kind of field row that Model/Wf.v allows is covered. *)
 Theorem C02_field_position_untyped : forall v t, tables_of v = Some t ->
   forall e, ec_ok e ->
   forall sn r, In (sn, r) (t_segments t) -> sn <> unbs "ANYHL7SEGMENT" -> sn <> unbs "MSH" ->
@@ -136,7 +136,7 @@ Theorem C02_field_position_untyped : forall v t, tables_of v = Some t ->
 Proof.
   intros v t Ht e He sn r Hin Ha Hm.
   destruct (shipped_table_facts v t Ht) as [Hst [Hvar _]].
-  destruct (shipped_segment_ok v t sn r Ht Hin Ha Hm) as [Hl [srows [-> [H3 [Hup [Hmsh [Hz [Hc [Hrows Hnof]]]]]]]]].
+  destruct (shipped_segment_ok v t sn r Ht Hin Ha Hm) as [Hl [srows [-> [H3 [Hup [Hmsh [Hz [Hc [Hrows [Hnof _]]]]]]]]]].
   exists srows. split; [reflexivity|]. intros i row inf x Hi Hn Hr Hdt Hx Hd Hlf.
   exact (field_position_untyped t e (leaf_enc v TOLERANT e) He Hst Hvar sn srows i row inf x
            H3 Hup Hmsh Hz Hl Hc Hrows Hi Hn Hr Hdt Hx Hd Hlf).
@@ -177,7 +177,7 @@ Theorem C02_open_ended_varies : forall v t, tables_of v = Some t ->
 Proof.
   intros v t Ht e He sn r Hin Ha Hm.
   destruct (shipped_table_facts v t Ht) as [Hst [Hvar _]].
-  destruct (shipped_segment_ok v t sn r Ht Hin Ha Hm) as [Hl [srows [-> [H3 [Hup [Hmsh [Hz [Hc [Hrows Hnof]]]]]]]]].
+  destruct (shipped_segment_ok v t sn r Ht Hin Ha Hm) as [Hl [srows [-> [H3 [Hup [Hmsh [Hz [Hc [Hrows [Hnof _]]]]]]]]]].
   exists srows. split; [reflexivity|]. intros lrow li i x Hlast Hlr Hld Hi Hx Hd Hlf.
   exact (open_ended_position t e (leaf_enc v TOLERANT e) He Hst Hvar sn srows lrow li i x
            H3 Hup Hmsh Hz Hl Hc Hrows Hlast Hlr Hld Hi (Hnof i Hi) Hx Hd Hlf).
@@ -219,7 +219,7 @@ Theorem C02_component_position : forall v t, tables_of v = Some t ->
 Proof.
   intros v t Ht e He sn r Hin Ha Hm.
   destruct (shipped_table_facts v t Ht) as [Hst [Hvar _]].
-  destruct (shipped_segment_ok v t sn r Ht Hin Ha Hm) as [Hl [srows [-> [H3 [Hup [Hmsh [Hz [Hc [Hrows Hnof]]]]]]]]].
+  destruct (shipped_segment_ok v t sn r Ht Hin Ha Hm) as [Hl [srows [-> [H3 [Hup [Hmsh [Hz [Hc [Hrows [Hnof _]]]]]]]]]].
   exists srows. split; [reflexivity|].
   intros i row inf D rows j crow ci b x Hi Hn Hr Hdt HlD Hj Hnc Hrc Hdc Hx Hd Hlf.
   exact (component_position t e (leaf_enc v TOLERANT e) He Hst Hvar sn srows i row inf D rows j crow ci b x
@@ -251,7 +251,7 @@ Theorem C02_subcomponent_position : forall v t, tables_of v = Some t ->
 Proof.
   intros v t Ht e He sn r Hin Ha Hm.
   destruct (shipped_table_facts v t Ht) as [Hst [Hvar _]].
-  destruct (shipped_segment_ok v t sn r Ht Hin Ha Hm) as [Hl [srows [-> [H3 [Hup [Hmsh [Hz [Hc [Hrows Hnof]]]]]]]]].
+  destruct (shipped_segment_ok v t sn r Ht Hin Ha Hm) as [Hl [srows [-> [H3 [Hup [Hmsh [Hz [Hc [Hrows [Hnof _]]]]]]]]]].
   exists srows. split; [reflexivity|].
   intros i row inf D rows j crow ci D2 rows2 k x Hi Hn Hr Hdt HlD Hj Hnc Hrc Hdc HlD2 Hk Hx Hd Hlf.
   exact (subcomponent_position t e (leaf_enc v TOLERANT e) He Hst Hvar sn srows i row inf D rows j crow ci D2 rows2 k x
